@@ -63,7 +63,8 @@ CLAIMED = {
              "and grads objectives are proved equal to their defining formulas for every loss, dataset, batch >= 1, worker count and assignment, with the "
              "assignment / batch independence corollaries (22 theorems, exact arithmetic). Correspondence: linear/function.cpp, gboost/function.cpp, accumulators and "
              "iterators on in-memory datasets over threads x batch x cache, with the chunk->worker schedule actually observed through the pool hook fed to the model; "
-             "1e-9 relative (the property's tolerance); independent python oracle with its own loss kernels.",
+             "1e-9 relative (the property's tolerance); independent python oracle with its own loss kernels. "
+             "Gap-closing round: the iterators themselves (flatten / targets / select: batching, statistics computed once with their own batching, per-batch scaling, NaN -> 0, the caches with their byte-budget rule, per-thread buffers) are modelled on top of C08's dataset model and C14's scaling model; served_eq_scaled_flatten: for every history of batch / scaling / cache calls that leaves no stale cache, every batch >= 1 and every schedule the callback gets, one call per chunk, exactly the rows of nan2zero(scale mode stats (flatten raw)), with stats = the C14 statistics of each column whatever the batching; cached = uncached; a kernel-checked stale-cache witness shows the hypothesis necessary; every objective is restated END TO END from the raw dataset (linear_from_raw, gboost_from_raw), so the former 'taken as served' assumption is gone (74 theorems). New families iter hist / iter select; the python oracle recomputes statistics and scaling from the raw data (1e-12).",
         note=NOTE_COMMON + "Floating-point re-association is bounded only empirically by the 1e-9 tolerance; the loss kernels belong to C06, served data to C08/C14; data races are outside (C18)."),
     "C07": dict(
         category="proof", technique=TECH_GEN, design="DESIGN.md §4 C07",
@@ -99,7 +100,8 @@ CLAIMED = {
              "and exclusive among running tasks, the sequential path runs each index once in order with tnum 0, map returns only after all its futures are ready, raise re-throws the first "
              "stored exception iff asked, chunks tile [0,n), no wake-up is lost (invariant J) and a quiescent state is complete incl. destruction (12 theorems, none partial). "
              "Correspondence: traces recorded through hook H1 under seeded schedule fuzzing are checked by the Lean driver for lock discipline, per-thread program order and for being a "
-             "path of the model; direct monitors (execution counters, tnum exclusivity, completion before return, rethrow, watchdog) are the property oracle; ThreadSanitizer in the thorough tier.",
+             "path of the model; direct monitors (execution counters, tnum exclusivity, completion before return, rethrow, watchdog) are the property oracle; ThreadSanitizer in the thorough tier. "
+             "Gap-closing round: section_t's lifetime is modelled as a refined system (block(raise), the destructor's wait, an UNGUARDED exit): map_exit_implies_all_ready (normal or exceptional exit only after every future was waited; a kernel-checked run shows the seeded 'swap the futures into a local' variant exits with an unfinished task), every_index_invoked_once_even_if_some_throw, pool_size_bounds, the worker wait split in two with a stop flag written without the mutex: stop_without_lock_loses_wakeup (kernel-checked, one worker) vs fine_refines_atomic under the lock, deadlock_free, progress_measure_decreases / run_without_new_calls_bounded (29 theorems). A second, independent trace monitor (critical sections, thread <-> worker id bijection, the caller never runs a task on the parallel path, every position of every call invoked exactly once also with throwing tasks, pool size) runs on every recorded trace; directed schedules park a worker between predicate evaluation and wait while the destructor or a push arrives (reached in every quick run).",
         note=NOTE_COMMON + "Atomicity of critical sections, std::mutex / condition_variable / packaged_task semantics and the C++ memory model are assumptions (the lock discipline is checked on every trace); "
              "liveness beyond quiescent_complete is not proved; schedules explored on the implementation are sampled, not exhaustive."),
     "C12": dict(
@@ -108,7 +110,8 @@ CLAIMED = {
              "partition the input with sizes n/k ... n/k + n%k, the random training part has round-half-up(p*n/100) elements (idiv RE-TRANSLATED from numeric.h on every run), equal seeds give "
              "equal splits, sampling without / with replacement returns count distinct sorted / sorted members, weighted sampling never returns a zero-weight index (contract of "
              "discrete_distribution as explicit hypothesis), gboost sampler modes, and ball points lie inside the ball (15 theorems). Exact correspondence with the implementation given the "
-             "permutations / draws reproduced with the same standard library; exhaustive n x folds x seeds grid; independent set-structure oracle.",
+             "permutations / draws reproduced with the same standard library; exhaustive n x folds x seeds grid; independent set-structure oracle. "
+             "Gap-closing round: make_rng(seed) (minstd_rand), libstdc++'s generate_canonical and discrete_distribution AS CODED (bit-exact against the real library, odd weights included), the seeded sampling overloads with the generator threaded, the gboost sampler object (five modes, weight formulas, counts) and splitter objects under histories of split / clone / set are modelled: weighted sampling never draws a zero-weight index with NO contract assumed of the distribution (ddDraw_positive; all-zero / NaN weights return the first sample: hypothesis necessary, replayed), count = n returns the sorted input, sampler_mode_spec, split is a function of (kind, folds, seed, train_per, samples) after ANY history and no object holds generator state, ball sampling with coordinate rounding (ulp(|x0|) allowance) (50 theorems). New families sampler / hist.",
         note=NOTE_COMMON + "std::shuffle / uniform / discrete / normal distributions are oracles (their outputs are inputs of the model); uniformity of the draws is not claimed."),
     "C19": dict(
         category="proof", technique=TECH_GEN, design="DESIGN.md §4 C19",
